@@ -1,6 +1,11 @@
 import GateModel.C16.L1
 import GateModel.C16.L2
+import GateModel.C16.L3
+import GateModel.C16.L4
 /-
-C16 — helper lemmas (aggregator): L1 = frame facts + monotonicity of `attempting`, L2 = the in-flight invariant,
-L3 = the switch-over invariants (current server / player lists).
+C16 — helper lemmas (aggregator).
+  L1  frame facts of the primitive updates; per-connection well-formedness `JP`; `attempting` never becomes true again
+  L2  task-side invariants and the in-flight invariant `A` (an attempt in flight owns the in-flight slot) ⇒ at most one
+  L3  the switch-over invariants `Core2` (current server / exactly one live backend / player lists)
+  L4  reachability under a hypothesis on the schedule, request bookkeeping, packaged invariants
 -/
